@@ -27,7 +27,7 @@ def reject_biased_plan(rng, job, variant, n):
 
 def unit(job, variant, pi, seed, length):
     rng = random.Random(f"C07:{seed}:{job}:{variant}:{pi}")
-    cmds = reject_biased_plan(rng, job, variant, length)
+    cmds = reject_biased_plan(rng, job, variant, length) if pi % 2 == 0 else simlib.rotation_plan(rng, job, variant, max(3, length // 8))
     sink: list[dict] = []
     eng = complib.proxied_engine(job, variant, sink)
     out = {"dispatches": 0, "rejections": 0, "failing": [], "by_class": {}, "listened_rejections": 0,
